@@ -159,3 +159,5 @@ func vMutexFree(mu *sync.Mutex) bool {
 	}
 	return false
 }
+
+func vFmtArg(k int) uint64 { panic(vSkip{"vFmtArg has no native counterpart"}) }
